@@ -764,6 +764,17 @@ func encryptHonouredRule(c *Ctx, r *Report, an *Anchors, rule string) {
 			if name, ok := an.flagOfValue(cl, f.Cond); ok && name == "encrypt" && f.Pol {
 				continue
 			}
+			// a validation: the other way out of this test ends the run with a failure status
+			// on every path (the job is refused, nothing is silently ignored)
+			if f.If != nil && len(f.If.Block().Succs) == 2 {
+				other := f.If.Block().Succs[0]
+				if f.Pol {
+					other = f.If.Block().Succs[1]
+				}
+				if len(other.Preds) == 1 && len(failsLoudly(other, false, nil)) == 0 {
+					continue
+				}
+			}
 			if bo, ok := f.Cond.(*ssa.BinOp); ok && (bo.Op == token.NEQ || bo.Op == token.EQL) {
 				okFlag := false
 				for _, pair := range [][2]ssa.Value{{bo.X, bo.Y}, {bo.Y, bo.X}} {
